@@ -63,6 +63,23 @@ CLAIMS = {
   note=TRUST + "Assumed: the parent chain is acyclic (child-to-parent lock order in Addr cannot cycle); sync.RWMutex implements a reader/writer lock; memory-model level races other than lock discipline are out of scope.",
   technique="contract-based deductive verification: lockset discipline + havoc-at-acquire critical-section specs, discharged by z3/cvc5",
   ref="4 C13"),
+ 'C14': dict(
+  text="Deductive proof of the frame half of the property (from which isolation follows): (1) every store instruction in vm/env/core/astutil into a field of an AST node type carries the obligation that the node was allocated by the same activation, "
+       "and every function's modifies clause is checked at each exit and loop back edge (no contract lists an AST field, so a write into the parsed tree - including caching in a node - fails); SetPosition through the node interfaces is allowed on fresh nodes only; "
+       "(2) package-level variables of the anko packages are stored to only by initialisers (and helpers reachable only from them) and the two documented parser switches; package-level maps and the tables stored in them (env.Packages[...]) are never updated outside init, "
+       "so import can only copy from them; (3) a *runInfoStruct is never stored anywhere but a local variable (per-run state does not escape); ctx and options of an activation never change. "
+       "That concurrent and repeated runs therefore behave as solo runs is the standard non-interference argument over these frames and is NOT machine-checked; no interleavings or race-detector runs are involved.",
+  note=TRUST + "Assumed: reflect never mutates a literal stored in the tree (values from reflect.ValueOf are not addressable); host functions bound into an environment are outside.",
+  technique="contract-based deductive verification: frame (modifies) obligations on every store and call, z3/cvc5",
+  ref="4 C14"),
+ 'C17': dict(
+  text="Deductive proof that the walker is exhaustive and complete, with the child relation taken mechanically from the type declarations of package ast (go/types), not from the walker: for every concrete Stmt/Expr/Operator node type, "
+       "walkStmt/walkExpr/walkOperator (a) hand the node to the callback first, (b) then walk every child field and every element of every child slice (per-activation trace of direct calls; existential witnesses found by the solver), "
+       "(c) return nil unless a callee - ultimately the callback - returned an error, which is returned unchanged, (d) make no further call after the first error, and (e) the default 'unknown node' branches are unreachable for all node types of the package. "
+       "The proof found the walker incomplete (delete/close/chan statements, ??, make(type), switch cases, len operand, slice cap); it was repaired by a fix: commit and now discharges all 573 obligations. Whole-tree coverage follows by induction over the tree (meta).",
+  note=TRUST + "Assumed: trees come from the parser (closed world of node types, no typed-nil nodes, len(Keys)==len(Values), switch cases are SwitchCaseStmt); the callback does not modify the tree.",
+  technique="contract-based deductive verification: activation-trace postconditions generated from go/types, z3/cvc5",
+  ref="4 C17"),
  'C15': dict(
   text="Deductive proof, for all inputs, of the scanner/lexer half of the property: every Scanner method, Lexer.Lex/Error, Parse and ParseSrc "
        "is symbolically executed from the SSA of /repo's working tree against contracts kept in parser/zz_contracts_verif.go; obligations: memory "
